@@ -78,6 +78,23 @@ func VerifC19Clone() {
 	v, ok := a.GetAttr(nk)
 	if op == 0 {
 		vAssert(vAnd(ok, v == nv), "SetAttr stores the value")
+		// the set after the write is the set that holds each key once with its last value: built afresh, one
+		// SetAttr per key
+		var want Set
+		want.Mask = a.Mask
+		for k := 0; k < 3; k++ {
+			key := uint8(k * 5)
+			if key == nk {
+				want.SetAttr(key, nv)
+			} else if old, had := snap.GetAttr(key); had {
+				want.SetAttr(key, old)
+			}
+		}
+		vCover(vParam("pa")&(1<<uint(vParam("nk"))) != 0, "a key written a second time")
+		vAssert(a.Compare(want) == 0, "a set written twice on one key equals the set holding the last value")
+		vAssert(want.Compare(a) == 0, "a set written twice on one key equals the set holding the last value (other side)")
+		vAssert(c19Same(a, want), "a set written twice on one key holds the last value (pairs)")
+		vAssert(vNot(vAnd(vParam("pa")&(1<<uint(vParam("nk"))) != 0, vAnd(c.Compare(a) == 0, vNot(c19Same(c, a))))), "Compare says equal only for the same pairs, also after a rewrite")
 	}
 	// Plain assignment shares the map: this is the aliasing Clone exists to avoid.
 	if vParam("pa") != 0 {
